@@ -547,6 +547,9 @@ impl Property for C10 {
     fn max_shrink_iters(&self) -> u32 {
         400
     }
+    fn fuzz_sequences(&self) -> Vec<(&'static str, usize)> {
+        vec![("/evs", 60)]
+    }
     fn run(&self, case: &Case10) -> Outcome {
         let mut out = Outcome::default();
         let cfg = hb_cfg(case.threshold, case.pool.clone());
